@@ -53,7 +53,7 @@ def deg_of_posterior(env, sf):
     return env.of(sf), None
 
 
-def run(chk, S: Session):
+def _run_own(chk, S: Session):
     chk.assume("damp = 0 for the equivariance clause")
     chk.trust("interface signatures of sdomain.py (derived per factorisation in C08 / C09)")
     r1 = chk.rule("R-C04-1", "scale-degree typing: means 0, uncalibrated covariances 1, estimated scales -1, calibrated covariances 0, acceptance quantity 0", floor=40)
@@ -229,3 +229,11 @@ def output_rules(chk, S, r1, r3):
                 r3.require(isinstance(scale, T.Term) and not T.value_atoms(scale), f"{name} finalize scale", "ones", f"scale = {T.show(scale, 3)}", SOLVERS, cfg)
                 rep = out.fields["output_scale"]
                 r3.require(isinstance(rep, T.Term) and not T.value_atoms(rep), f"{name} reported scale", "ones", f"{T.show(rep, 3)}", SOLVERS, cfg)
+
+
+def run(chk, S: Session):
+    _run_own(chk, S)
+    from ..harness import borrow
+
+    rb = chk.rule("R-C04-B", "clauses of this statement decided by rules of C03 (calibrated covariances: every part of the returned posterior is rescaled)", floor=4)
+    borrow(chk, S, rb, "C03", lambda r, c: r == "R-C03-3" or (r == "R-C03-1" and ("finalize" in c or "rescale" in c)))
